@@ -47,6 +47,7 @@ def parsePlan (toks : List String) : List (Nat × Action) :=
     match t.splitOn ":" with
     | [k, a] => match k.toNat? with
       | some k => if a == "s" then some (k, .skipDir)
+                  else if a == "a" then some (k, Action.skipAll)
                   else if a.startsWith "e" then (a.drop 1).toString.toNat?.map fun c => (k, .error c) else none
       | none => none
     | _ => none
